@@ -75,15 +75,29 @@ def witness_check(cfg=None):
     return p
 
 
-def timeout_plan():
-    """a command that outlives its timeout must fail the build and leave no cache entry"""
+TIMEOUT_VARIANTS = {
+    # how the command behaves when its timeout strikes
+    "plain": {"sleep": "3"},                                                            # sleeps before writing anything
+    "outputs-then-sleep": {"sleep_after": "sleep 3"},                                   # outputs complete, then overruns
+    "graceful-exit-0": {"prelude": "trap 'exit 0' TERM INT HUP", "sleep_after": "sleep 3 & wait $!"},   # handles the signal, exits 0
+    "graceful-exit-0-early": {"prelude": "trap 'exit 0' TERM INT HUP", "sleep": "3 & wait $!"},
+    "ignores-term": {"prelude": "trap '' TERM INT HUP", "sleep_after": "sleep 3"},
+    "child-keeps-pipe": {"sleep_after": "sleep 3 & sleep 3"},
+}
+
+
+def timeout_plan(variant="plain"):
+    """a command that outlives its timeout must fail the build and leave no cache entry -- however it reacts to the signal;
+    the next build must run it again"""
     def p(h, r):
-        mk = lambda sleep, to: {"nodes": [{"k": "t", "pkg": "p", "name": "slow", "salt": "v0", "ins": [], "glob": None, "excl": [],
-                                         "outs": [("file", "o.txt")], "deps": [], "fp": {}, "nocache": False, "multi": False, "beh": "n",
-                                         "check": False, "comment": "", "sleep": sleep, "timeout": to}], "files": {}}
-        h.set_sources(mk("3", "1s"))
-        b = h.build(hc.ALL_CACHE)
-        return [("timeout", len(h.builds) - 1)]
+        node = {"k": "t", "pkg": "p", "name": "slow", "salt": "v0", "ins": [], "glob": None, "excl": [],
+                "outs": [("file", "o.txt")], "deps": [], "fp": {}, "nocache": False, "multi": False, "beh": "n",
+                "check": False, "comment": "", "timeout": "1s"}
+        node.update(TIMEOUT_VARIANTS[variant])
+        h.set_sources({"nodes": [node], "files": {}})
+        h.build(hc.ALL_CACHE)
+        h.build(hc.ALL_CACHE)
+        return [("timeout", 0, variant), ("timeout", 1, variant)]
     return p
 
 
@@ -91,7 +105,7 @@ def run(out, tier):
     n = 24 if tier == "quick" else 500
     feats = dict(hc.CLEAN); feats.update({"check": True, "fail": True})
     plans = [("witness-check", witness_check()), ("witness-check-minimal", witness_check(MIN_CACHE)), ("witness-break", witness_break()),
-             ("timeout", timeout_plan())] + [("checks", plan(feats))] * n + [("checks-minimal", plan(feats, MIN_CACHE))] * (n // 3)
+             ] + [("timeout", timeout_plan(v)) for v in sorted(TIMEOUT_VARIANTS)] + [("checks", plan(feats))] * n + [("checks-minimal", plan(feats, MIN_CACHE))] * (n // 3)
     batch = hc.run_batch(plans, vlib.seed())
     hc.check_plan_errors(batch)
     findings = {f["class"]: f for f in vlib.known_findings("C14")}
@@ -110,7 +124,10 @@ def run(out, tier):
                     if os.path.basename(dp) == "target":
                         cached += fn
                 if b["rc"] == 0 or cached:
-                    out.violation("a command exceeding its timeout was reported successful or cached (rc=%s, results=%s)" % (b["rc"], cached),
+                    out.violation("a command exceeding its timeout (1s; variant %s) was reported successful or cached (build %d: rc=%s, results=%s)" % (
+                        note[2], bi, b["rc"], cached), h.replay_dict())
+                elif "//p:slow" not in b["starts"]:
+                    out.violation("after a build in which the command exceeded its timeout (variant %s) build %d did not run it again" % (note[2], bi),
                                   h.replay_dict())
                 continue
             if b["rc"] == 0:
